@@ -34,10 +34,11 @@ class Uniform(Distribution):
             # probability (pdf) as 1 divided by the area, the convert 
             # to logpdf. Special case if scalar.
             diff = self.high - self.low
-            if isinstance(diff, (list, tuple, np.ndarray)): 
+            if isinstance(diff, (list, tuple, np.ndarray)) and np.size(diff) == self.dim: 
                 v= np.prod(diff)
             else:
-                v = diff
+                # Scalar bounds are shared by all dim components
+                v = np.prod(diff)**self.dim
             return_val = np.log(1.0/v)
         return return_val
 
